@@ -123,6 +123,14 @@ def run_dict(ops, ks, vs):
 IDX = [-1, 0, 2]   # negative, first, out of range for a 2-element list
 
 
+class BoxError(Exception):
+    pass
+
+
+# what a hosted method may raise while it runs: the caller must see THAT type and args, whatever the type
+ERRS = [ValueError, AttributeError, KeyError, TypeError, BoxError]
+
+
 class Box:
     """A registered custom class; `make` returns a managed() value: the caller must get a live proxy, not a copy."""
 
@@ -136,22 +144,22 @@ class Box:
     def peek(self, j):
         return list(self.items[j])
 
-    def fail(self, n):
-        raise ValueError('box', n)
+    def fail(self, n, kind=0):
+        raise ERRS[kind]('box', n)
 
 
 SP.ServerProcess.register('VerifBox', Box)
 
 
-def check_managed_returns_live_proxy(n: int, m: int, first: int) -> bool:
+def check_managed_returns_live_proxy(n: int, m: int, first: int, kind: int = 0) -> bool:
     """
-    pre: 0 <= n <= 2 and 0 <= m <= 2 and 0 <= first <= 1
+    pre: 0 <= n <= 2 and 0 <= m <= 2 and 0 <= first <= 1 and 0 <= kind <= 4
     twin-pre: n != m
     post: _
     """
-    n, m, first = conc(n, 0, 2), conc(m, 0, 2), conc(first, 0, 1)
+    n, m, first, kind = conc(n, 0, 2), conc(m, 0, 2), conc(first, 0, 1), conc(kind, 0, 4)
     with _untraced():   # proxy classes are built with exec() of generated source: keep CrossHair's string models out
-        return _managed_body(n, m, first)
+        return _managed_body(n, m, first, kind)
 
 
 def _untraced():
@@ -163,15 +171,16 @@ def _untraced():
         return contextlib.nullcontext()
 
 
-def _managed_body(n, m, first):
+def _managed_body(n, m, first, kind=0):
     T.install()
     box = T.create('VerifBox')
     if first == 1:
         try:
-            box.fail(m)
+            box.fail(m, kind)
             return False
-        except ValueError as e:
-            if e.args != ('box', m) or not is_remote_exception(e) or 'in fail' not in get_remote_traceback(e):
+        except Exception as e:
+            if type(e) is not ERRS[kind] or e.args != ('box', m) or not is_remote_exception(e) \
+                    or 'in fail' not in get_remote_traceback(e):
                 return False
     inner = box.make(n)
     if list(inner) != [n]:
@@ -202,16 +211,20 @@ def check_value_namespace(a: int, b: int) -> bool:
         return False
     except AttributeError:
         pass
+    except Exception:   # any other error type is not what a direct attribute access raises
+        return False
     return v.value == b and ns2.x == a and ns.y == b
 
 
 def _warm():
     """Create every proxy type once, concretely, at import time: their classes are built with exec() of generated source,
     which must not happen on symbolic values."""
-    check_managed_returns_live_proxy(1, 2, 1)
-    check_value_namespace(1, 2)
-    run_list([0, 2], [0, 0], [1, 1])
-    run_dict([0, 2], [1, 1], [1, 1])
+    for f, a in ((check_managed_returns_live_proxy, (1, 2, 1)), (check_value_namespace, (1, 2)),
+                 (run_list, ([0, 2], [0, 0], [1, 1])), (run_dict, ([0, 2], [1, 1], [1, 1]))):
+        try:
+            f(*a)
+        except Exception:   # a wrong answer here is for the conditions to report, not for import to die on
+            pass
 
 
 _warm()
